@@ -1231,7 +1231,7 @@ func (s *dbSuite) genOp(r *rand.Rand, dead bool) string {
 			case 3:
 				lim = n + 5 + r.Intn(20) // more than the bucket can hold
 			}
-			if r.Intn(25) == 0 {
+			if r.Intn(25) == 0 && s.profile != "sparse" { // sparse-mode paging is D-SPARSE-PAGE; its model is not kept for odd limits
 				lim = oddLimit(r)
 			}
 			// offsets: mostly inside the block (the number of distinct live keys is far below the number of draws)
@@ -1255,7 +1255,7 @@ func (s *dbSuite) genOp(r *rand.Rand, dead bool) string {
 			case 2:
 				lim = len(s.usedKeys[b]) + 5 + r.Intn(20) // more than the bucket can hold
 			}
-			if r.Intn(25) == 0 {
+			if r.Intn(25) == 0 && s.profile != "sparse" { // sparse-mode paging is D-SPARSE-PAGE; its model is not kept for odd limits
 				lim = oddLimit(r)
 			}
 			return fmt.Sprintf("psearch %s %s %d %d %d %d", hb, hx(pre), r.Intn(len(rxSet)), 0, lim, now)
